@@ -39,4 +39,4 @@ def run(ctx):
                 "node must respect the variable order, and a cache entry must be valid for its key.")
     n = estep.run(ctx, F, kinds=("mtbdd",))
     ctx.floor("E-TABLE.step", "situations of the recursive step (apply_bin, apply_ite)", n, 50)
-    ctx.not_decided = "non-overflow arithmetic of the terminal types, Div rounding, float behaviour, restrict"
+    ctx.not_decided = "non-overflow arithmetic of the terminal types, Div rounding, float behaviour"
